@@ -46,6 +46,7 @@ class SumTerm:
     """Sigma_{i<n} s(i) as an uninterpreted constant plus witness-skolemised lemma schemas"""
 
     def __init__(self, path, n, s):
+        self.path = path
         self.n = n
         self.s = s
         self.c = fresh('sum', R)
@@ -56,7 +57,12 @@ class SumTerm:
         path.note_idx(self.j_pos)
 
     def summand(self, j):
-        return term(self.s(j), True)
+        # lemma instances are built while a VC is assembled: never fork there (indices are witnesses in range)
+        self.path.spec_mode += 1
+        try:
+            return term(self.s(j), True)
+        finally:
+            self.path.spec_mode -= 1
 
     def lemmas(self, engine, path, others=()):
         n = term(self.n)
@@ -234,10 +240,10 @@ def getitem(it, base, idx):
                     raise p.pyexc('IndexError')
                 return base.at(idx % base.n)
             if idx >= 0:
-                if not p.truth(mk(term(base.n) > idx)):
+                if not p.spec_mode and not p.truth(mk(term(base.n) > idx)):
                     raise p.pyexc('IndexError')
                 return base.at(idx)
-            if not p.truth(mk(term(base.n) >= -idx)):
+            if not p.spec_mode and not p.truth(mk(term(base.n) >= -idx)):
                 raise p.pyexc('IndexError')
             i = z3.simplify(term(base.n) + idx)
             p.note_idx(i)
@@ -1059,6 +1065,8 @@ def np_full(it, a, k):
 
 def np_ones(it, a, k):
     n = a[0]
+    if isinstance(n, list):
+        n = tuple(n)
     if isinstance(n, tuple):
         if len(n) == 1:
             n = n[0]
@@ -1069,6 +1077,8 @@ def np_ones(it, a, k):
 
 def np_zeros(it, a, k):
     n = a[0]
+    if isinstance(n, list):
+        n = tuple(n)
     if isinstance(n, tuple):
         if len(n) == 1:
             n = n[0]
@@ -1648,6 +1658,17 @@ def s_given(it, a, k):
     return Hyp(list(hyps), goal)
 
 
+def s_named(it, a, k):
+    """named(x): a fresh constant defined equal to x (conservative let-abstraction that keeps later nonlinear
+    reasoning small)"""
+    x = a[0]
+    if not isinstance(x, SV) or x.kind not in ('real', 'int'):
+        return x
+    c = it.p.fresh_def('let', x.t.sort())
+    it.p.assume(c == x.t)
+    return SV(c)
+
+
 def s_ite(it, a, k):
     c, x, y = a
     if isinstance(c, bool):
@@ -1706,7 +1727,7 @@ def s_at(it, a, k):
 
 SPEC_BUILTINS = {
     'at': s_at,
-    'forall': s_forall, 'exists': s_exists, 'given': s_given, 'forall2': s_forall2, 'implies': s_implies, 'ite': s_ite, 'is_none': s_is_none,
+    'forall': s_forall, 'exists': s_exists, 'given': s_given, 'named': s_named, 'forall2': s_forall2, 'implies': s_implies, 'ite': s_ite, 'is_none': s_is_none,
     'spec_db2lin': s_db2lin, 'spec_lin2db': s_lin2db, 'iff': s_iff, 'mask_index': s_mask_index,
     'sort_perm': s_sort_perm,
 }
